@@ -604,6 +604,18 @@ func valueDerivesFromCallTo(v ssa.Value, fn *ssa.Function) bool {
 				}
 			}
 		}
+		if u, ok := x.(*ssa.UnOp); ok && u.Op == token.MUL {
+			if _, isField := u.X.(*ssa.FieldAddr); isField {
+				if os, ok := fieldOrigins(u, 0); ok && len(os) > 0 {
+					for _, o := range os {
+						if walk(o.V, d+1) {
+							return true
+						}
+					}
+					return false
+				}
+			}
+		}
 		if prm, ok := x.(*ssa.Parameter); ok && curProg != nil && d < 20 {
 			// a helper's parameter: the value comes from its callers
 			for _, cs := range curProg.callers[prm.Parent()] {
